@@ -633,8 +633,8 @@ register("C02", run_C02, module="Robotools.Props.C02",
                    "removeStep_err", "addStep_valid", "removeStep_valid", "micro_valid", "exec_decompose", "exec_append", "exec_valid",
                    "compile_nonneg", "step_limits", "world_limits", "mk_valid", "trough_mk_valid")], rule="add/remove histories and worklist programs with boundary-biased volumes; rejected operations are followed by further operations")
 register("C03", run_C03, module="Robotools.Props.C03",
-         theorems=["Robotools.C03." + t for t in ("step_safe", "step_cfg", "step_wf", "abort_safe", "run_safe")]
-                  + ["Robotools.RP." + t for t in ("safe_append", "safe_rm_emit", "safe_ad_emit", "safe_compileTransfer", "compile_safe")],
+         theorems=["Robotools.C03." + t for t in ("step_safe", "step_cfg", "step_wf", "abort_safe", "run_safe", "steps_bounded", "prepareAD_oversize", "pair_mem_plan_nosplit", "no_split_rejects")]
+                  + ["Robotools.RP." + t for t in ("safe_append", "safe_rm_emit", "safe_ad_emit", "safe_compileTransfer", "compile_safe", "within_compile", "recs_within_exec")],
          rule="worklist programs whose last operation is built to fail at a chosen sub-step; records replayed after every operation")
 register("C04", run_C04, module="Robotools.Props.C04",
          theorems=["Robotools.C04." + t for t in ("micro_shape", "executed_prefix", "executed_all_of_ok", "exec_ledger", "exec_frame",
